@@ -34,7 +34,7 @@ theorem connectOk_ok {s : St} {t sid : Nat} (hp : s.pc t = .made sid) (hc : s.co
 theorem writeBegin_ok {s : St} {t sid w : Nat} (hp : s.pc t = .made sid) (hw : s.wr = some w) (hc : s.conn ≠ none)
     (he : s.err.get w = false) :
     step cfg bytesOf s (.writeBegin t) =
-      some ({ s with log := s.log.set w (s.log.get w ++ [sid]), pend := s.pend.set w (bytesOf sid) }.setPc t
+      some ({ s with log := s.log.set w (s.log.get w ++ [sid]), pend := s.pend.set w (bytesOf sid), deadline := s.deadline.set w (if cfg.rearm = true then s.now + s.timeout else s.deadline.get w) }.setPc t
             (.writing sid w (bytesOf sid))) := by
   simp only [step, hp, hw]
   rw [if_pos ⟨hc, he⟩]
@@ -58,20 +58,22 @@ theorem writeEnd_ok {s : St} {t sid w : Nat} (hp : s.pc t = .writing sid w []) :
   simp only [step, hp]
 
 theorem flushOk_ok {s : St} {t sid w0 w : Nat} (hp : s.pc t = .wrote sid w0) (hw : s.wr = some w)
-    (he : s.err.get w = false) :
-    step cfg bytesOf s (.flushOk t) = some ((s.push w (s.buf.get w).length).finish t sid true) := by
+    (he : s.err.get w = false) (hd : s.now ≤ s.deadline.get w) :
+    step cfg bytesOf s (.flushOk t) =
+      some (((s.push w (s.buf.get w).length).finish t sid true).procRel cfg.procLocked t) := by
   simp only [step, hp, hw]
-  rw [if_pos he]
+  rw [if_pos ⟨he, hd⟩]
 
 theorem close_ok {s : St} {t sid : Nat} (hp : s.pc t = .failed sid) :
     step cfg bytesOf s (.close t) =
       some ({ s with conn := none }.setPc t (if t = 0 then .afterFail sid else .done sid false)) := by
   simp only [step, hp]
 
-theorem unlock_ok {s : St} {t sid : Nat} {ok : Bool} (hp : s.pc t = .done sid ok) :
+theorem unlock_ok {s : St} {t sid : Nat} {ok : Bool} (hp : s.pc t = .done sid ok) (ht : t ≠ 0) :
     step cfg bytesOf s (.unlock t) =
       some ({ s with lock := none, results := (sid, ok) :: s.results }.setPc t .idle) := by
   simp only [step, hp]
+  rw [if_pos ht]
 
 /-- the actions of one successful `sendDirect` -/
 def okSend (t sid len : Nat) (dial : Bool) : List Act :=
@@ -87,18 +89,24 @@ theorem okSend_noFault (t sid len : Nat) (dial : Bool) : ∀ a ∈ okSend t sid 
 theorem stickySend_noFault (t sid : Nat) : ∀ a ∈ stickySend t sid, a.isFault = false := by
   simp [stickySend, Act.isFault]
 
-/-- the tail of a successful send, from the point where the connection is up and the writer clean -/
-theorem send_tail_ok {s : St} {t sid w : Nat} (ht : t ≠ 0) (hp : s.pc t = .made sid) (hw : s.wr = some w)
+/-- `wr.Write` and `Flush` of a frame on a clean current writer, nothing interfering, the deadline
+    re-armed by `send()`: the frame ends up logged last on `w` with nothing left in the buffer. -/
+theorem write_flush_ok (hra : cfg.rearm = true) {s : St} {t sid w : Nat} (hp : s.pc t = .made sid) (hw : s.wr = some w)
     (hc : s.conn ≠ none) (he : s.err.get w = false) (hne : bytesOf sid ≠ []) :
-    ∃ s', run cfg bytesOf [.writeBegin t, .writeChunk t (bytesOf sid).length, .writeEnd t, .flushOk t, .unlock t] s = some s' ∧
-      s'.results = (sid, true) :: s.results ∧ s'.log.get w = s.log.get w ++ [sid] ∧
-      s'.buf.get w = [] ∧ s'.pend.get w = [] ∧ s'.nsid = s.nsid := by
+    ∃ s', run cfg bytesOf [.writeBegin t, .writeChunk t (bytesOf sid).length, .writeEnd t, .flushOk t] s = some s' ∧
+      s'.log.get w = s.log.get w ++ [sid] ∧ s'.buf.get w = [] ∧ s'.pend.get w = [] ∧
+      s'.nsid = s.nsid ∧ s'.results = s.results ∧ s'.queue = s.queue ∧ s'.conn = s.conn ∧ s'.wr = s.wr ∧
+      s'.err = s.err ∧ s'.next = s.next ∧
+      s'.pc t = (if t = 0 then .idle else .done sid true) ∧
+      s'.lock = (if t = 0 ∧ cfg.procLocked = true then none else s.lock) ∧
+      (∀ t', t ≠ t' → s'.pc t' = s.pc t') ∧
+      (∀ w', s.sent w' <+: s'.sent w') ∧ (∀ w', ∃ ext, s'.log.get w' = s.log.get w' ++ ext) := by
   have hlen : 0 < (bytesOf sid).length := by
     cases hb : bytesOf sid with
     | nil => exact absurd hb hne
     | cons _ _ => simp
   -- writeBegin
-  let s1 : St := { s with log := s.log.set w (s.log.get w ++ [sid]), pend := s.pend.set w (bytesOf sid) }.setPc t
+  let s1 : St := { s with log := s.log.set w (s.log.get w ++ [sid]), pend := s.pend.set w (bytesOf sid), deadline := s.deadline.set w (if cfg.rearm = true then s.now + s.timeout else s.deadline.get w) }.setPc t
     (.writing sid w (bytesOf sid))
   have e1 : step cfg bytesOf s (.writeBegin t) = some s1 := writeBegin_ok cfg bytesOf hp hw hc he
   -- writeChunk (everything)
@@ -116,27 +124,73 @@ theorem send_tail_ok {s : St} {t sid w : Nat} (ht : t ≠ 0) (hp : s.pc t = .mad
   have p3 : s3.pc t = .wrote sid w := by simp [s3]
   have w3 : s3.wr = some w := hw
   have er3 : s3.err.get w = false := he
-  let s4 : St := (s3.push w (s3.buf.get w).length).finish t sid true
-  have e4 : step cfg bytesOf s3 (.flushOk t) = some s4 := flushOk_ok cfg bytesOf p3 w3 er3
-  -- unlock
-  have p4 : s4.pc t = .done sid true := by
-    simp only [s4]; rw [finish_pc, if_pos rfl, if_neg ht]
-  let s5 : St := { s4 with lock := none, results := (sid, true) :: s4.results }.setPc t .idle
-  have e5 : step cfg bytesOf s4 (.unlock t) = some s5 := unlock_ok cfg bytesOf p4
-  refine ⟨s5, ?_, ?_, ?_, ?_, ?_, ?_⟩
+  have dl3 : s3.now ≤ s3.deadline.get w := by
+    show s.now ≤ (s.deadline.set w (if cfg.rearm = true then s.now + s.timeout else s.deadline.get w)).get w
+    rw [AMap.get_set_self, if_pos hra]; omega
+  let s4 : St := ((s3.push w (s3.buf.get w).length).finish t sid true).procRel cfg.procLocked t
+  have e4 : step cfg bytesOf s3 (.flushOk t) = some s4 := flushOk_ok cfg bytesOf p3 w3 er3 dl3
+  refine ⟨s4, ?_, ?_, ?_, ?_, ?_, ?_, ?_, ?_, ?_, ?_, ?_, ?_, ?_, ?_, ?_, ?_⟩
   · rw [run_cons_of_step cfg bytesOf _ e1, run_cons_of_step cfg bytesOf _ e2, run_cons_of_step cfg bytesOf _ e3,
-      run_cons_of_step cfg bytesOf _ e4, run_cons_of_step cfg bytesOf _ e5]
+      run_cons_of_step cfg bytesOf _ e4]
     rfl
+  · show ((s3.push w (s3.buf.get w).length).finish t sid true).log.get w = _
+    rw [finish_log]; simp [St.push, s3, s2, s1, St.setPc]
+  · show ((s3.push w (s3.buf.get w).length).finish t sid true).buf.get w = _
+    rw [finish_buf]; simp [St.push]
+  · show ((s3.push w (s3.buf.get w).length).finish t sid true).pend.get w = _
+    rw [finish_pend]; simp [St.push, s3, s2, St.setPc]
+  · show ((s3.push w (s3.buf.get w).length).finish t sid true).nsid = _
+    rw [finish_nsid]; rfl
+  · show ((s3.push w (s3.buf.get w).length).finish t sid true).results = _
+    rw [finish_results]; rfl
+  · show ((s3.push w (s3.buf.get w).length).finish t sid true).queue = _
+    rw [finish_queue]; rfl
+  · show ((s3.push w (s3.buf.get w).length).finish t sid true).conn = _
+    unfold St.finish; by_cases h0 : t = 0 <;> simp [h0, St.setPc, St.push, s3, s2, s1]
+  · show ((s3.push w (s3.buf.get w).length).finish t sid true).wr = _
+    rw [finish_wr]; rfl
+  · show ((s3.push w (s3.buf.get w).length).finish t sid true).err = _
+    rw [finish_err]; rfl
+  · show ((s3.push w (s3.buf.get w).length).finish t sid true).next = _
+    rw [finish_next]; rfl
+  · show ((s3.push w (s3.buf.get w).length).finish t sid true).pc t = _
+    rw [finish_pc, if_pos rfl]
+  · show (if t = 0 ∧ cfg.procLocked = true then none else ((s3.push w (s3.buf.get w).length).finish t sid true).lock) = _
+    rw [finish_lock]; rfl
+  · intro t' hne'
+    show ((s3.push w (s3.buf.get w).length).finish t sid true).pc t' = _
+    rw [finish_pc, if_neg hne']
+    simp [St.push, s3, s2, s1, St.pc, St.setPc, AMap.get_set, hne']
+  · intro w'
+    show s.sent w' <+: ((s3.push w (s3.buf.get w).length).finish t sid true).sent w'
+    rw [finish_sent]
+    exact push_sent_prefix s3 w _ w'
+  · intro w'
+    show ∃ ext, ((s3.push w (s3.buf.get w).length).finish t sid true).log.get w' = s.log.get w' ++ ext
+    rw [finish_log]
+    show ∃ ext, (s.log.set w (s.log.get w ++ [sid])).get w' = s.log.get w' ++ ext
+    rw [AMap.get_set]
+    by_cases e : w = w'
+    · subst e; exact ⟨[sid], by simp⟩
+    · exact ⟨[], by simp [e]⟩
+
+/-- the tail of a successful direct send, from the point where the connection is up and the writer clean -/
+theorem send_tail_ok (hra : cfg.rearm = true) {s : St} {t sid w : Nat} (ht : t ≠ 0) (hp : s.pc t = .made sid)
+    (hw : s.wr = some w) (hc : s.conn ≠ none) (he : s.err.get w = false) (hne : bytesOf sid ≠ []) :
+    ∃ s', run cfg bytesOf [.writeBegin t, .writeChunk t (bytesOf sid).length, .writeEnd t, .flushOk t, .unlock t] s = some s' ∧
+      s'.results = (sid, true) :: s.results ∧ s'.log.get w = s.log.get w ++ [sid] ∧
+      s'.buf.get w = [] ∧ s'.pend.get w = [] ∧ s'.nsid = s.nsid := by
+  obtain ⟨s4, hrun, hlog, hb, hpd, hn, hres, _, _, _, _, _, hpc, _, _, _, _⟩ := write_flush_ok cfg bytesOf hra hp hw hc he hne
+  rw [if_neg ht] at hpc
+  let s5 : St := { s4 with lock := none, results := (sid, true) :: s4.results }.setPc t .idle
+  have e5 : step cfg bytesOf s4 (.unlock t) = some s5 := unlock_ok cfg bytesOf hpc ht
+  refine ⟨s5, ?_, ?_, hlog, hb, hpd, hn⟩
+  · have : [Act.writeBegin t, .writeChunk t (bytesOf sid).length, .writeEnd t, .flushOk t, .unlock t] =
+        [Act.writeBegin t, .writeChunk t (bytesOf sid).length, .writeEnd t, .flushOk t] ++ [.unlock t] := rfl
+    rw [this, run_append, hrun]
+    simp only [Option.bind, run, e5]
   · show (sid, true) :: s4.results = _
-    simp only [s4]; rw [finish_results]; rfl
-  · show s4.log.get w = _
-    simp only [s4]; rw [finish_log]; simp [St.push, s3, s2, s1, St.setPc]
-  · show s4.buf.get w = _
-    simp only [s4]; rw [finish_buf]; simp [St.push]
-  · show s4.pend.get w = _
-    simp only [s4]; rw [finish_pend]; simp [St.push, s3, s2, St.setPc]
-  · show s4.nsid = _
-    simp only [s4]; rw [finish_nsid]; rfl
+    rw [hres]
 
 /-- all invariants used here -/
 def Good (s : St) : Prop := Core cfg bytesOf s ∧ FreshInv s
@@ -162,7 +216,7 @@ theorem whole_of_flushed {s : St} (hg : Good cfg bytesOf s) (w sid : Nat) (pre :
   rw [this]; exact List.prefix_refl _
 
 /-- a send on a clean writer (or with no connection: it dials) succeeds and its frame is whole on the wire -/
-theorem send_ok_of_clean (hl : cfg.sendLocked = true) (hq : cfg.useQueue = false) (hne : ∀ sid, bytesOf sid ≠ [])
+theorem send_ok_of_clean (hl : cfg.sendLocked = true) (hra : cfg.rearm = true) (hq : cfg.useQueue = false) (hne : ∀ sid, bytesOf sid ≠ [])
     (s : St) (hg : Good cfg bytesOf s) (t : Nat) (ht : t ≠ 0) (hidle : s.pc t = .idle) (hlock : s.lock = none)
     (hclean : s.conn = none ∨ ∃ w, s.wr = some w ∧ s.err.get w = false) :
     ∃ dial s', run cfg bytesOf (okSend t s.nsid (bytesOf s.nsid).length dial) s = some s' ∧
@@ -174,7 +228,7 @@ theorem send_ok_of_clean (hl : cfg.sendLocked = true) (hq : cfg.useQueue = false
   · -- dial
     have e2 : step cfg bytesOf s1 (.connectOk t) = some s1.connectNew := connectOk_ok cfg bytesOf p1 hc
     have hfr : s1.connectNew.err.get s.next = false := hg.2.errFresh s.next (Nat.le_refl _)
-    obtain ⟨s', hrun, hres, hlog, hb, hp, _⟩ := send_tail_ok cfg bytesOf (s := s1.connectNew) (w := s.next) ht
+    obtain ⟨s', hrun, hres, hlog, hb, hp, _⟩ := send_tail_ok cfg bytesOf hra (s := s1.connectNew) (w := s.next) ht
       (by exact p1) rfl (by simp [St.connectNew]) hfr (hne s.nsid)
     refine ⟨true, s', ?_, by rw [hres]; simp, s.next, ?_⟩
     · simp only [okSend, if_true, List.cons_append, List.nil_append]
@@ -189,7 +243,7 @@ theorem send_ok_of_clean (hl : cfg.sendLocked = true) (hq : cfg.useQueue = false
       rcases hclean with h | h
       · exact absurd h hc
       · exact h
-    obtain ⟨s', hrun, hres, hlog, hb, hp, _⟩ := send_tail_ok cfg bytesOf (s := s1) (w := w) ht p1 hw hc he (hne s.nsid)
+    obtain ⟨s', hrun, hres, hlog, hb, hp, _⟩ := send_tail_ok cfg bytesOf hra (s := s1) (w := w) ht p1 hw hc he (hne s.nsid)
     refine ⟨false, s', ?_, by rw [hres]; simp, w, ?_⟩
     · simp only [okSend, List.cons_append, List.nil_append]
       rw [run_cons_of_step cfg bytesOf _ e1]; exact hrun
@@ -214,7 +268,7 @@ theorem sticky_send (hq : cfg.useQueue = false) (s : St) (t w : Nat) (ht : t ≠
   have e3 : step cfg bytesOf s2 (.close t) = some s3 := close_ok cfg bytesOf p2
   have p3 : s3.pc t = .done s.nsid false := by simp [s3, ht]
   let s4 : St := { s3 with lock := none, results := (s.nsid, false) :: s3.results }.setPc t .idle
-  have e4 : step cfg bytesOf s3 (.unlock t) = some s4 := unlock_ok cfg bytesOf p3
+  have e4 : step cfg bytesOf s3 (.unlock t) = some s4 := unlock_ok cfg bytesOf p3 ht
   refine ⟨s4, ?_, rfl, rfl, by simp [s4], rfl⟩
   simp only [stickySend]
   rw [run_cons_of_step cfg bytesOf _ e1, run_cons_of_step cfg bytesOf _ e2, run_cons_of_step cfg bytesOf _ e3,
@@ -225,13 +279,13 @@ theorem sticky_send (hq : cfg.useQueue = false) (s : St) (t w : Nat) (ht : t ≠
     idle and the send lock is free — after any faults — there is a continuation of at most two sends
     by `t` (eleven actions, none of them a fault) after which a send is accepted and its frame is
     whole on a connection. -/
-theorem reconnects_direct (hl : cfg.sendLocked = true) (hq : cfg.useQueue = false) (hne : ∀ sid, bytesOf sid ≠ [])
+theorem reconnects_direct (hl : cfg.sendLocked = true) (hra : cfg.rearm = true) (hq : cfg.useQueue = false) (hne : ∀ sid, bytesOf sid ≠ [])
     (s : St) (hr : Reach cfg bytesOf s) (t : Nat) (ht : t ≠ 0) (hidle : s.pc t = .idle) (hlock : s.lock = none) :
     ∃ acts s', run cfg bytesOf acts s = some s' ∧ acts.length ≤ 11 ∧ (∀ a ∈ acts, a.isFault = false) ∧
       ∃ sid, s.nsid ≤ sid ∧ (sid, true) ∈ s'.results ∧ ∃ w, Whole bytesOf s' w sid := by
   have hg := good_reach cfg bytesOf hl hr
   by_cases hclean : s.conn = none ∨ ∃ w, s.wr = some w ∧ s.err.get w = false
-  · obtain ⟨dial, s', hrun, hres, hw⟩ := send_ok_of_clean cfg bytesOf hl hq hne s hg t ht hidle hlock hclean
+  · obtain ⟨dial, s', hrun, hres, hw⟩ := send_ok_of_clean cfg bytesOf hl hra hq hne s hg t ht hidle hlock hclean
     refine ⟨_, s', hrun, ?_, okSend_noFault t _ _ dial, s.nsid, Nat.le_refl _, hres, hw⟩
     cases dial <;> simp [okSend]
   · -- connected, and the writer carries a sticky error
@@ -246,7 +300,7 @@ theorem reconnects_direct (hl : cfg.sendLocked = true) (hq : cfg.useQueue = fals
       | false => exact absurd (Or.inr ⟨w, hw, h⟩) hclean
     obtain ⟨s1, hrun1, hc1, hl1, hp1, hn1⟩ := sticky_send cfg bytesOf hq s t w ht hidle hlock hc hw he
     have hg1 := good_run cfg bytesOf hl _ s s1 hg hrun1
-    obtain ⟨dial, s', hrun2, hres, hw2⟩ := send_ok_of_clean cfg bytesOf hl hq hne s1 hg1 t ht hp1 hl1 (Or.inl hc1)
+    obtain ⟨dial, s', hrun2, hres, hw2⟩ := send_ok_of_clean cfg bytesOf hl hra hq hne s1 hg1 t ht hp1 hl1 (Or.inl hc1)
     refine ⟨stickySend t s.nsid ++ okSend t s1.nsid (bytesOf s1.nsid).length dial, s', ?_, ?_, ?_, s1.nsid, by omega, hres, hw2⟩
     · rw [run_append, hrun1]; exact hrun2
     · cases dial <;> simp [okSend, stickySend]
